@@ -14,6 +14,13 @@ func main() {
 	seed := fs.Int64("seed", 1, "PRNG seed")
 	n := fs.Int("n", 100, "number of generated cases")
 	out := fs.String("out", ".", "output directory")
+	if len(os.Args) > 2 && os.Args[1] == "spike" {
+		if err := c01.Spike(os.Args[2]); err != nil {
+			fmt.Println("SPIKE-ERROR", err)
+			os.Exit(3)
+		}
+		return
+	}
 	if len(os.Args) > 1 && os.Args[1] == "c01" {
 		fs.Parse(os.Args[2:])
 	} else {
